@@ -42,11 +42,15 @@ pub struct ReadBackOpts {
     pub ranged: usize,
     /// restore into a tmpfs dir and compare (only for models without special files)
     pub restore: bool,
+    /// compare inode numbers (false when the source was a real directory)
+    pub inode: bool,
+    /// compare only these mode bits (a real directory source stores Go-style modes with type bits)
+    pub mode_mask: u32,
 }
 
 impl Default for ReadBackOpts {
     fn default() -> Self {
-        Self { meta: true, ranged: 3, restore: false }
+        Self { meta: true, ranged: 3, restore: false, inode: true, mode_mask: u32::MAX }
     }
 }
 
@@ -94,7 +98,7 @@ pub fn read_back<S: IndexedFull>(
             return ReadBack::Differs(show_key(key), format!("type/link target differs: {:?}", node.node_type));
         }
         if opts.meta {
-            if node.meta.mode != Some(e.mode) {
+            if node.meta.mode.map(|m| m & opts.mode_mask) != Some(e.mode & opts.mode_mask) {
                 return ReadBack::Differs(show_key(key), format!("mode {:?} != {:o}", node.meta.mode, e.mode));
             }
             let mt = node.meta.mtime.map(|t| (t.as_second(), t.subsec_nanosecond()));
@@ -104,7 +108,7 @@ pub fn read_back<S: IndexedFull>(
             if node.meta.uid != Some(e.uid) || node.meta.gid != Some(e.gid) {
                 return ReadBack::Differs(show_key(key), "uid/gid differ".into());
             }
-            if !matches!(e.kind, Kind::Dir) && (node.meta.inode != e.inode || node.meta.links != e.links) {
+            if !matches!(e.kind, Kind::Dir) && ((opts.inode && node.meta.inode != e.inode) || node.meta.links != e.links) {
                 return ReadBack::Differs(show_key(key), "inode/links differ".into());
             }
         }
